@@ -510,6 +510,58 @@ def plateau_then_plain_cases(run):
                         theorem="C05_mask_exact")
 
 
+def plateau_then_new_interval_cases(run):
+    """a plateau search followed by ONE call that switches the search off and
+    moves the lower bound (upper bound kept), the keywords given in either
+    order: the fit uses the interval of that call, as on a fresh curve"""
+    n = 3 if run.tier == "quick" else 12
+    for i in range(n):
+        cols = base_curve(seed=470 + i, n_app=160, n_ret=50)
+        rx = [[-3e-6, 1e-6], [-2e-6, 1.5e-6], [0, 1e-6]][i % 3]
+        rx2 = [rx[0] + [1.2e-6, 0.7e-6, -0.8e-6][i % 3], rx[1]]
+        for order in ("range-first", "flag-first"):
+            cfg = {"plateau-then-new-interval": i, "range_x": rx,
+                   "then": rx2, "order": order}
+            key = f"plateau-then-new-interval:{rx}:{rx2}:{order}"
+            run.case(cfg, kind="plateau-then-new-interval-" + order)
+            try:
+                with warnings.catch_warnings():
+                    warnings.simplefilter("ignore")
+                    a = curves.make_indentation(cols)
+                    a.fit_model(model_key="hertz_para",
+                                optimal_fit_edelta=True,
+                                optimal_fit_num_samples=9, range_x=list(rx))
+                    if order == "range-first":
+                        a.fit_model(range_x=list(rx2),
+                                    optimal_fit_edelta=False)
+                    else:
+                        a.fit_model(optimal_fit_edelta=False,
+                                    range_x=list(rx2))
+                    b = curves.make_indentation(cols)
+                    b.fit_model(model_key="hertz_para",
+                                optimal_fit_edelta=False,
+                                optimal_fit_num_samples=9, range_x=list(rx2))
+                why = None
+                stored = [float(v) for v in a.fit_properties["range_x"]]
+                ma = np.asarray(a["fit range"]).astype(bool)
+                mb = np.asarray(b["fit range"]).astype(bool)
+                if stored != [float(v) for v in rx2]:
+                    why = (f"the stored interval is {stored}, the call gave "
+                           f"{rx2}")
+                elif not np.array_equal(ma, mb):
+                    why = (f"the fit used {int(ma.sum())} points, a fresh "
+                           f"curve with the same request {int(mb.sum())}")
+                elif a.fit_properties["xmin"] != b.fit_properties["xmin"] or \
+                        a.fit_properties["xmax"] != b.fit_properties["xmax"]:
+                    why = "xmin / xmax differ from a fresh curve's"
+            except BaseException as e:
+                why = f"raised {type(e).__name__}: {e}"
+            if why:
+                run.failing(SITE, key, f"{cfg}: {why}",
+                            payload={"kind": "rerun"},
+                            theorem="C05_mask_exact")
+
+
 def check(run):
     run.sources = common.source_digests(["src/nanite/fit.py"])
     gen_all.generate_all()
@@ -536,6 +588,7 @@ def check(run):
     check_plateau(run)
     scan_history_cases(run)
     plateau_then_plain_cases(run)
+    plateau_then_new_interval_cases(run)
     plateau_selection_cases(run)
     known_plateau_findings(run)
     run.rule = ("intervals with boundaries on sample abscissae, one ulp "
